@@ -10,7 +10,7 @@ RULE = ('105 scenarios = key exchange {RSA, ECDHE_RSA, ECDHE_ECDSA, ECDH_RSA, EC
         'delivered on either side, altered protected records are rejected on receipt; record-header bytes: either nobody completes or the '
         'completed session delivers data exactly. Plus 245 authentication cases: every scripted validator error, wrong key type / key / curve / '
         'usages, server or client private key not matching the certificate, weak RSA key, rogue server policy (un-offered suite, TLS-1.2 suite '
-        'below 1.2), disjoint version ranges, TLS_FALLBACK_SCSV, with honest controls that must complete. distinct = scenarios x fault classes.')
+        'below 1.2), static-ECDH client authentication by a rogue certificate policy that holds a victim certificate (other curve / same curve) but not its key and derives Finished from premaster guesses made of public data, disjoint version ranges, TLS_FALLBACK_SCSV, with honest controls that must complete. distinct = scenarios x fault classes.')
 ASSUMPTIONS = [
     'a victim left waiting for bytes after its peer failed (or after a removed last flight / enlarged length field) is counted as "never ready", since the engine API has no transport-closed notification',
     'seeder replaced by a fixed seed (hook H1); x86-64 ASan/UBSan build',
@@ -18,7 +18,7 @@ ASSUMPTIONS = [
 EVAL = ['cases']
 DISTINCT = ['scenario', 'auth_scenario']
 REQUIRED = ['cases', 'faults_message_byte', 'faults_protected_byte', 'faults_record_level', 'faults_header_byte',
-            'victim_failed_with_error', 'auth_cases', 'auth_controls', 'reference_runs']
+            'victim_failed_with_error', 'auth_cases', 'auth_controls', 'reference_runs', 'rogue_static_ecdh_keyx_calls']
 EXHAUSTIVE = 'every handshake/CCS record byte of both flights for the fully swept scenarios; every record index for each record-level edit in all scenarios'
 NW = 16
 
